@@ -84,24 +84,70 @@ fn write_tree(root: &Path, case: &Value) -> io::Result<()> {
     Ok(())
 }
 
-/// What the generated harness for `selected` looks like (token-level, whitespace-insensitive).
+/// Identifier / punctuation tokens of a Rust text (good enough for generated code: comments and
+/// string contents are tokenised too, which can only add tokens, never hide an attribute).
+fn rust_tokens(text: &str) -> Vec<String> {
+    let mut toks = Vec::new();
+    let mut cur = String::new();
+    for ch in text.chars() {
+        if ch.is_alphanumeric() || ch == '_' {
+            cur.push(ch);
+        } else {
+            if !cur.is_empty() {
+                toks.push(std::mem::take(&mut cur));
+            }
+            if !ch.is_whitespace() {
+                toks.push(ch.to_string());
+            }
+        }
+    }
+    if !cur.is_empty() {
+        toks.push(cur);
+    }
+    toks
+}
+
+/// What the generated harness for `selected` looks like (token level).
 fn inspect_harness(main_rs: &str, selected: &str) -> Value {
-    let toks: String = main_rs.split_whitespace().collect::<Vec<_>>().join("");
-    let attr_plain = toks.matches("#[test]").count();
-    let attr_tokio = toks.matches("#[tokio::test]").count();
-    let needle_a = format!("#[test]fn{}(", selected);
-    let needle_b = format!("#[test]pubfn{}(", selected);
-    let needle_c = format!("#[tokio::test]asyncfn{}(", selected);
-    let needle_d = format!("#[tokio::test]pubasyncfn{}(", selected);
-    let selected_is_test =
-        toks.contains(&needle_a) || toks.contains(&needle_b) || toks.contains(&needle_c) || toks.contains(&needle_d);
-    let has_main = toks.contains("fnmain(");
-    // does anything other than its own definition mention the selected function?
-    let def = format!("fn{}(", selected);
-    let call = format!("{}(", selected);
-    let calls_selected = toks.matches(&call).count() > toks.matches(&def).count();
-    json!({"test_attrs": attr_plain + attr_tokio, "selected_is_test": selected_is_test,
-           "has_main": has_main, "calls_selected": calls_selected, "defines_selected": toks.contains(&def)})
+    let t = rust_tokens(main_rs);
+    let is = |i: usize, s: &str| t.get(i).map(|x| x == s).unwrap_or(false);
+    let mut test_attrs = 0;
+    let mut selected_is_test = false;
+    let mut defines_selected = false;
+    let mut calls_selected = false;
+    let mut has_main = false;
+    for i in 0..t.len() {
+        // #[test]  |  #[tokio::test]
+        let attr_end = if is(i, "#") && is(i + 1, "[") && is(i + 2, "test") && is(i + 3, "]") {
+            Some(i + 4)
+        } else if is(i, "#") && is(i + 1, "[") && is(i + 2, "tokio") && is(i + 3, ":") && is(i + 4, ":") && is(i + 5, "test") && is(i + 6, "]") {
+            Some(i + 7)
+        } else {
+            None
+        };
+        if let Some(mut j) = attr_end {
+            test_attrs += 1;
+            // skip further attributes and `pub` / `async` up to `fn`
+            while j < t.len() && !is(j, "fn") && j < attr_end.unwrap() + 24 {
+                j += 1;
+            }
+            if is(j, "fn") && is(j + 1, selected) && is(j + 2, "(") {
+                selected_is_test = true;
+            }
+        }
+        if is(i, "fn") && is(i + 1, "main") && is(i + 2, "(") {
+            has_main = true;
+        }
+        if is(i, selected) && is(i + 1, "(") {
+            if i > 0 && is(i - 1, "fn") {
+                defines_selected = true;
+            } else {
+                calls_selected = true;
+            }
+        }
+    }
+    json!({"test_attrs": test_attrs, "selected_is_test": selected_is_test, "has_main": has_main,
+           "calls_selected": calls_selected, "defines_selected": defines_selected})
 }
 
 fn run_case(base: &Path, stub_dir: &Path, case: &Value) -> Value {
@@ -133,10 +179,8 @@ fn run_case(base: &Path, stub_dir: &Path, case: &Value) -> Value {
         .map(|a| a.iter().filter_map(|x| x.as_str().map(|s| s.to_string())).collect())
         .unwrap_or_default();
 
-    let exe = match std::env::current_exe() {
-        Ok(p) => p,
-        Err(e) => return json!({"id": id, "infra": format!("current_exe: {}", e)}),
-    };
+    // /proc/self/exe stays valid when a concurrent `cargo build` replaces the file on disk
+    let exe = PathBuf::from("/proc/self/exe");
     let mut cmd = Command::new(exe);
     {
         use std::os::unix::process::CommandExt;
